@@ -373,6 +373,9 @@ def float_lit(fr):
     return "(%s)" % h if x < 0 else h
 
 
+POW_CHAIN = [False]
+
+
 def coq_fexpr(e):
     """the same expression tree over PrimFloat (only + - * / abs max sqrt, x**2, comparisons); anything else raises"""
     t = e[0]
@@ -394,6 +397,8 @@ def coq_fexpr(e):
         return "(fsq %s)" % coq_fexpr(e[1])          # numpy evaluates x ** 2 as x * x
     if t == "pow" and e[2] == 1:
         return coq_fexpr(e[1])
+    if t == "pow" and e[2] == 3 and POW_CHAIN[0]:
+        return "(fcube %s)" % coq_fexpr(e[1])         # LLVM (numba) evaluates x ** 3 as (x * x) * x; numpy calls pow()
     if t == "ite":
         return "(if %s then %s else %s)" % (coq_fexpr(e[1]), coq_fexpr(e[2]), coq_fexpr(e[3]))
     if t == "T":
@@ -421,13 +426,16 @@ Import ListNotations.
 Open Scope float_scope.
 Definition fmax (a b : float) : float := if a <? b then b else a.
 Definition fsq (a : float) : float := a * a.
+Definition fcube (a : float) : float := (a * a) * a.
 (* same value: equal, or both NaN (the sign of zero is not distinguished) *)
 Definition fsame (a b : float) : bool := (a =? b) || (is_nan a && is_nan b).
 """
 
 
-def float_defs(k, outputs=None):
-    """Definition <kernel>_<out>_f over float for a kernel translated with fold=False"""
+def float_defs(k, outputs=None, pow_chain=False):
+    """Definition <kernel>_<out>_f over float for a kernel translated with fold=False.  pow_chain: x ** 3 as (x*x)*x - true for
+    numba-compiled kernels (measured: bit-identical), false for numpy, whose pow() differs in the last bit for 26 % of inputs"""
+    POW_CHAIN[0] = pow_chain
     sig = k.signature()
     for n, t in sig:
         if t not in ("R", "bool"):
@@ -1221,9 +1229,18 @@ def translate(rel, fname, params, name=None, outputs=None, drop_outputs=(), grap
     graph: names whose assignments belong to the graph part and are skipped; bool_inputs: {name: dom} names that are
       read as boolean inputs instead (their assignments are skipped)."""
     mod = get_mod(rel)
-    if fname not in mod.funcs:
-        raise TranslateError("function %s not found in %s" % (fname, rel))
-    fdef = mod.funcs[fname]
+    if "." in fname:                                   # "outer.inner": a function defined inside another function
+        outer, inner = fname.split(".", 1)
+        if outer not in mod.funcs:
+            raise TranslateError("function %s not found in %s" % (outer, rel))
+        cand = [n for n in ast.walk(mod.funcs[outer]) if isinstance(n, ast.FunctionDef) and n.name == inner]
+        if len(cand) != 1:
+            raise TranslateError("nested function %s not found (uniquely) in %s" % (fname, rel))
+        fdef = cand[0]
+    else:
+        if fname not in mod.funcs:
+            raise TranslateError("function %s not found in %s" % (fname, rel))
+        fdef = mod.funcs[fname]
     k = Kernel(name or fname, "%s:%s" % (rel, fname))
     opts = {"graph": set(graph), "bool_inputs": dict(bool_inputs or {}), "opaque_calls": dict(opaque_calls or {}),
             "attr_consts": dict(attr_consts or {})}
@@ -1388,6 +1405,12 @@ def k_der_lambda(friction_model):
                      outputs=["lambda_der"])
 
 
+def k_colebrook():
+    """the implicit Colebrook-White function handed to scipy.optimize.newton and its derivative (nested in colebrook_white)"""
+    return [translate(DC, "colebrook_white.colebrook_white_implicit", {}, name="cw_implicit", outputs=["f"]),
+            translate(DC, "colebrook_white.cw_derivative", {}, name="cw_derivative", outputs=["df"])]
+
+
 def k_pamb():
     return translate("component_models/component_toolbox.py", "p_correction_height_air", {"height": "n"},
                      name="p_correction_height_air", outputs=["p"])
@@ -1418,6 +1441,7 @@ FILES = {
     "KFriction": lambda: [k_calc_lambda(f, g, nb) for f in ("nikuradse", "swamee-jain") for g in (False, True)
                             for nb in (False, True)] + [k_der_lambda("nikuradse"), k_der_lambda("swamee-jain")],
     "KPamb": lambda: [k_pamb()],
+    "KColebrook": k_colebrook,
     "KGasResNp": lambda: [k_gasres_np()], "KGasResNb": k_gasres_nb,
     "KBasicRes": lambda: [k_basic(False), k_basic(True)],
     "KHydIncompNp": lambda: [k_hyd_incomp("np")], "KHydIncompNb": lambda: [k_hyd_incomp("nb")],
